@@ -299,7 +299,16 @@ Report runThreads(const Config& cfg, const std::vector<std::function<void()>>& b
         threads.emplace_back(threadMain, i, &bodies[static_cast<size_t>(i)]);
     {
         std::unique_lock<std::mutex> lk(st.m);
-        st.current = cfg.useExplicit ? 0 : static_cast<int>(st.rng.below(static_cast<uint64_t>(st.n)));
+        st.current = static_cast<int>(st.rng.below(static_cast<uint64_t>(st.n)));
+        if (cfg.useExplicit)
+        {
+            st.current = 0;
+            if (!st.cfg.explicitSwitches.empty() && st.cfg.explicitSwitches[0].first == 0)
+            {
+                st.current = st.cfg.explicitSwitches[0].second % st.n;
+                st.explicitPos = 1;
+            }
+        }
         st.rep.scheduleHash = sim::hashU64(static_cast<uint64_t>(st.current), 0x5C4ED);
         st.rep.switchLog.emplace_back(0, st.current);
         st.cv.notify_all();
